@@ -14,6 +14,14 @@ func main() {
 	switch os.Args[1] {
 	case "hello":
 		hello()
+	case "worker":
+		cmdWorker()
+	case "check":
+		cmdCheck(os.Args[2:])
+	case "replay":
+		cmdReplay(os.Args[2:])
+	case "run":
+		cmdRun(os.Args[2:])
 	default:
 		fmt.Println("unknown command")
 		os.Exit(2)
